@@ -58,6 +58,9 @@ type Signature struct {
 	Signature   []byte
 
 	toSign []byte
+	// protected header bytes as received by UnmarshalCBOR: verification and
+	// re-encoding must use them verbatim, not a re-encoding of Protected.
+	protected []byte
 }
 
 // WithSign signs a COSE_Sign message with some Signers.
@@ -152,7 +155,10 @@ func (m *SignMessage[T]) Verify(verifiers key.Verifiers, externalData []byte) er
 			}
 		}
 
-		protected, _ := sig.Protected.Bytes()
+		protected := sig.protected
+		if protected == nil {
+			protected, _ = sig.Protected.Bytes()
+		}
 		sig.toSign = m.mm.toSign(protected, externalData)
 		if err = verifier.Verify(sig.toSign, sig.Signature); err != nil {
 			return err
@@ -268,8 +274,10 @@ func (s *Signature) MarshalCBOR() ([]byte, error) {
 	}
 
 	var err error
-	if sm.Protected, err = s.Protected.Bytes(); err != nil {
-		return nil, err
+	if sm.Protected = s.protected; sm.Protected == nil {
+		if sm.Protected, err = s.Protected.Bytes(); err != nil {
+			return nil, err
+		}
 	}
 
 	return key.MarshalCBOR(sm)
@@ -293,6 +301,7 @@ func (s *Signature) UnmarshalCBOR(data []byte) error {
 
 	s.Unprotected = sm.Unprotected
 	s.Signature = sm.Signature
+	s.protected = sm.Protected
 	return nil
 }
 
